@@ -70,7 +70,9 @@ FAMILIES = {
 }
 
 
-def execute(ex: Execution, family: str, mode: str) -> tuple[Any, list[Any]]:
+def execute(ex: Execution, family: str, mode: str, via_handler: bool = False) -> tuple[Any, list[Any]]:
+    """``via_handler``: the cancel request is made through the public handler API with a wait that gives up at once
+    (``await handler.cancel_run(timeout=0)``) - giving up waiting must not do anything to the run"""
     mk, expected_result = FAMILIES[family]
     with EngineExec(ex, RunConfig(pair_time=(mode in ("timeout", "timeout_hang")), busy_ticks=(1 if mode == "timeout_busy" else 0))) as e:
         h = e.h
@@ -110,7 +112,11 @@ def execute(ex: Execution, family: str, mode: str) -> tuple[Any, list[Any]]:
 
         h.on_tick.append(on_tick)
         if mode in ("cancel", "cancel_resume", "cancel_resume_x2", "cancel_resume_timeout_hang"):
-            e.add_script([Action("cancel_run", lambda: (marks.setdefault("cancel_requested_at_bodies", len(h.invocations)), hd.ctx._workflow_cancel_run()))])
+            if via_handler:
+                e.add_script([Action("handler.cancel_run(timeout=0)", lambda: (marks.setdefault("cancel_requested_at_bodies", len(h.invocations)),
+                                                                            e.loop.create_task(hd.cancel_run(timeout=0.0))))])
+            else:
+                e.add_script([Action("cancel_run", lambda: (marks.setdefault("cancel_requested_at_bodies", len(h.invocations)), hd.ctx._workflow_cancel_run()))])
         if mode == "cancel" and family == "spin":
             # the cancel request and the completion of the running step in the same loop iteration: the request is in the run's
             # mailbox while the non-suspending steps that follow are still to come
@@ -128,6 +134,8 @@ def execute(ex: Execution, family: str, mode: str) -> tuple[Any, list[Any]]:
         out = task_outcome(hd._result_task)
         v: list[Any] = []
         w = {"mode": mode, "family": family.split("(")[0]}
+        if via_handler:
+            w["cancel_via"] = "handler.cancel_run(timeout=0)"
         pub = h.published
         if out[0] == "pending" and mode == "cancel_resume_timeout_hang":
             pass  # the steps blocked before the cancel request was made: nothing to resume (covered by timeout_hang)
@@ -254,6 +262,10 @@ def programs(tier: str) -> list[Program]:
             ps.append(Program(f"{mode}/{fam}", {"family": fam, "mode": mode},
                               (lambda ex, fam=fam, mode=mode: execute(ex, fam, mode)),
                               max_dev=(4 if q else 6)))
+    for fam in ("chain2", "fan(2,2)"):
+        for mode in ("cancel", "cancel_resume"):
+            ps.append(Program(f"{mode}/{fam}/via_handler_timeout0", {"family": fam, "mode": mode, "via_handler": True},
+                              (lambda ex, fam=fam, mode=mode: execute(ex, fam, mode, via_handler=True)), max_dev=(4 if q else 6)))
     return ps
 
 
